@@ -37,11 +37,11 @@ ASSUMPTIONS = [
 
 NAMES = [("os", "system"), ("subprocess", "Popen"), ("builtins", "eval"), ("__builtin__", "__import__"), ("zqv_inert_a", "f"),
          ("zqv_inert_b.sub", "g"), ("socket", "create_connection"), ("marshal", "loads"), ("importlib", "import_module"), ("ctypes", "CDLL"),
-         ("this.zen", "lines"), ("chunk.zqv", "f"), ("_codecs", "encode")]
+         ("this.zen", "lines"), ("chunk.zqv", "f"), ("_codecs", "encode"), ("zqv_lazy", "heavy"), ("zqv_lazy", "Klass")]
 # string arguments: a shell-ish text and codec names that are not loaded by an idle interpreter
 ARGS = ["echo zqv_inert_c", "cp037", "bz2_codec"]
 # (resolve kind, call kind) templates: every global-resolving opcode and every call-making opcode occurs
-TEMPLATES = [(0, 1), (0, 4), (0, 5), (0, 6), (1, 1), (3, 2), (4, 3), (5, 1), (5, 0), (0, 7), (0, 0)]
+TEMPLATES = [(0, 1), (0, 4), (0, 5), (0, 6), (1, 1), (3, 2), (4, 3), (5, 1), (5, 0), (0, 7), (0, 0), (0, 8), (1, 8)]
 FATES = [0, 1, 2]
 ENTRIES = ["parse", "stacked", "decompile", "trace", "check_safety", "cli_decompile", "cli_trace", "cli_check_safety", "is_likely_safe"]
 BYTE_SAMPLES = [0x00, 0x28, 0x2e, 0x52, 0x63, 0x69, 0x80, 0x93, 0xff]
@@ -108,7 +108,32 @@ TOKENS = set()           # names taken from the input under analysis (module top
 LOADED_BEFORE = set()
 
 
+def _ensure_lazy():
+    """a loaded module with PEP 562 dynamic attributes and a class with a metaclass __getattr__: looking a name up on
+    either runs code chosen by whoever named it (numpy/scipy-style lazy sub-module loading)"""
+    import types
+    if "zqv_lazy" in sys.modules:
+        return
+    m = types.ModuleType("zqv_lazy")
+
+    def __getattr__(name):
+        if ARMED[0]:
+            EVENTS.append(("module __getattr__", name))
+        raise AttributeError(name)
+
+    class Meta(type):
+        def __getattr__(cls, name):
+            if ARMED[0]:
+                EVENTS.append(("metaclass __getattr__", name))
+            raise AttributeError(name)
+
+    m.__getattr__ = __getattr__
+    m.Klass = Meta("Klass", (), {"__module__": "zqv_lazy"})
+    sys.modules["zqv_lazy"] = m
+
+
 def _install():
+    _ensure_lazy()
     if not HOOKED[0]:
         sys.addaudithook(_hook)
         sys.meta_path.insert(0, _Finder)
@@ -199,10 +224,10 @@ def program(tpl, ni, x, fate, ai=0):
 def make_sym(entry):
     def lem(tpl: int, ni: int, fate: int, x: int, tail: bytes) -> bool:
         """
-        pre: 0 <= tpl < 11 and 0 <= ni < 13 and 0 <= fate < 3 and 0 <= x < 256 and len(tail) <= 2
+        pre: 0 <= tpl < 13 and 0 <= ni < 15 and 0 <= fate < 3 and 0 <= x < 256 and len(tail) <= 2
         post: _
         """
-        if QUICK[0] and (fate != (tpl % 3) or ni not in (0, 2, 4, 10) or len(tail) > 1):
+        if QUICK[0] and (fate != (tpl % 3) or ni not in (0, 2, 4, 10, 13) or len(tail) > 1):
             return True
         tpl, ni, fate = pin(tpl, 0, len(TEMPLATES) - 1), pin(ni, 0, len(NAMES) - 1), pin(fate, 0, 2)
         if ENTRIES[entry] in PRINTING:
@@ -227,7 +252,7 @@ def make_sym(entry):
 def make_mut(entry):
     def lem(tpl: int, ni: int) -> bool:
         """
-        pre: 0 <= tpl < 11 and 0 <= ni < 13
+        pre: 0 <= tpl < 13 and 0 <= ni < 15
         post: _
         """
         tpl, ni = pin(tpl, 0, len(TEMPLATES) - 1), pin(ni, 0, len(NAMES) - 1)
@@ -271,7 +296,7 @@ def _mutations(entry, tpl, ni):
 def make_corrupt(entry):
     def lem(tpl: int, ni: int, pos: int, b: int) -> bool:
         """
-        pre: 0 <= tpl < 11 and 0 <= ni < 13 and 0 <= pos < 64 and 0 <= b < 256
+        pre: 0 <= tpl < 13 and 0 <= ni < 15 and 0 <= pos < 64 and 0 <= b < 256
         post: _
         """
         # thorough: one byte at a pinned position takes EVERY value (symbolic), so the parser sees a symbolic opcode/argument
@@ -333,7 +358,7 @@ def lemmas(tier):
         if name != "is_likely_safe":
             L.append(Lemma("sym_" + name, make_sym(e), timeout=300 if q else 1500, dry=[{"tpl": 0, "ni": 0, "fate": 0, "x": 5, "tail": b""}, {"tpl": 4, "ni": 4, "fate": 1, "x": 0, "tail": b"c"}],
                            doc={"S": ["x: BININT1 value in front of the gadget (all 256)", "tail: <=2 arbitrary trailing bytes (may start another opcode)"],
-                                "F": ["template (11: every global-resolving x call-making opcode)", "global (13 dangerous/probe names incl. stdlib packages that are not loaded yet and _codecs.encode with an input-chosen codec)", "fate (3)", "entry point " + name],
+                                "F": ["template (13: every global-resolving x call-making opcode, OBJ with and without arguments)", "global (15 dangerous/probe names incl. a loaded module with dynamic attributes and a class with a metaclass __getattr__, stdlib packages that are not loaded yet and _codecs.encode with an input-chosen codec)", "fate (3)", "entry point " + name],
                                 "bound": "single gadget" + ("; quick: 4 names, one fate per template, tail <= 1 byte" if q else "")}))
         L.append(Lemma("mut_" + name, make_mut(e), timeout=400 if q else 3000, replay=(lambda e_: (lambda tpl, ni: _mutations(e_, tpl, ni)))(e),
                        dry=[{"tpl": 0, "ni": 0}, {"tpl": 7, "ni": 5}],
